@@ -28,6 +28,45 @@ def is_scoped_template(template_typenames: Sequence[str],
     return False, -1
 
 
+def scoped_instantiation_name(instantiation: parser.Typename) -> str:
+    """
+    The name of `instantiation` (without namespaces but with its template
+    arguments) for use as a scope, e.g. `Y<int>` in `ns::Y<int>::Value`.
+    """
+    return parser.Typename([instantiation.name],
+                           instantiation.instantiations).to_cpp()
+
+
+def instantiate_template_args(typename: parser.Typename,
+                              template_typenames: Sequence[str],
+                              instantiations: Sequence[parser.Typename],
+                              cpp_typename: parser.Typename):
+    """
+    Instantiate (in place) the template parameters and `This` which appear
+    in the template arguments of `typename`, at any depth,
+    e.g. std::vector<std::vector<T>> or std::vector<T::Value>.
+    """
+    for instantiation in typename.instantiations:
+        instantiate_template_args(instantiation, template_typenames,
+                                  instantiations, cpp_typename)
+        if instantiation.name in template_typenames:
+            template_idx = template_typenames.index(instantiation.name)
+            instantiation.name = instantiations[template_idx]
+        elif instantiation.namespaces and \
+                instantiation.namespaces[0] in template_typenames:
+            # Scoped template e.g. T::Value
+            template_idx = template_typenames.index(
+                instantiation.namespaces[0])
+            scope = instantiations[template_idx]
+            instantiation.namespaces = scope.namespaces + [
+                scoped_instantiation_name(scope)
+            ] + instantiation.namespaces[1:]
+        elif instantiation.name == 'This' and not instantiation.namespaces \
+                and cpp_typename:
+            instantiation.namespaces = cpp_typename.namespaces
+            instantiation.name = cpp_typename.name
+
+
 def instantiate_type(
         ctype: parser.Type,
         template_typenames: Sequence[str],
@@ -56,19 +95,17 @@ def instantiate_type(
     ctype = deepcopy(ctype)
 
     # Check if the return type has template parameters as the typename's name
-    if ctype.typename.instantiations:
-        for idx, instantiation in enumerate(ctype.typename.instantiations):
-            if instantiation.name in template_typenames:
-                template_idx = template_typenames.index(instantiation.name)
-                ctype.typename.instantiations[idx].name =\
-                    instantiations[template_idx]
-
+    # (at any depth of its template arguments).
+    instantiate_template_args(ctype.typename, template_typenames,
+                              instantiations, cpp_typename)
 
     str_arg_typename = str(ctype.typename)
 
     # Check if template is a scoped template e.g. T::Value where T is the template
-    scoped_template, scoped_idx = is_scoped_template(template_typenames,
-                                                     str_arg_typename)
+    # (only the scopes and name of the type itself are examined,
+    # its template arguments have already been dealt with).
+    scoped_template, scoped_idx = is_scoped_template(
+        template_typenames, ctype.typename.qualified_name())
 
     # Instantiate templates which have enumerated instantiations in the template.
     # E.g. `template<T={double}>`.
@@ -78,15 +115,18 @@ def instantiate_type(
         # Create a copy of the instantiation so we can modify it.
         instantiation = deepcopy(instantiations[scoped_idx])
         # Replace the part of the template with the instantiation
-        instantiation.name = str_arg_typename.replace(scoped_template,
-                                                      instantiation.name)
+        instantiation.name = "::".join(
+            scoped_instantiation_name(instantiation
+                                      ) if part == scoped_template else part
+            for part in ctype.typename.qualified_name().split("::"))
+        instantiation.instantiations = ctype.typename.instantiations
         return parser.Type(
             typename=instantiation,
             is_const=ctype.is_const,
             is_shared_ptr=ctype.is_shared_ptr,
             is_ptr=ctype.is_ptr,
             is_ref=ctype.is_ref,
-            is_basic=ctype.is_basic,
+            is_basic=getattr(ctype, 'is_basic', False),
         )
     # Check for exact template match.
     elif str_arg_typename in template_typenames:
